@@ -46,6 +46,9 @@ def gen_case(g):
         lkind = kind if rng.random() < 0.7 else rng.choice(G.KINDS)
         if rng.random() < 0.75:
             ops.append(g.poly(shape=shape, kind=lkind))
+            if rng.random() < 0.15:
+                # names stored in another than index order (as polynomial_from_attributes keeps them)
+                G.permute_names(ops[-1], rng)
         else:
             ops.append(g.const_operand(shape=shape, kind=lkind))
     if rng.random() < 0.1 and count >= 2:
@@ -142,6 +145,10 @@ def run_case(case, ctx):
         facts["failure"] = "shape"
         ctx.violation(facts, f"{fn}: shapes {[o.shape for o in out]} != {common}", case)
         return
+    # index order is what align_indeterminants promises; align_exponents / align_polynomials only
+    # have to build the union (in index order) when the operands' name tuples differ
+    tuples = {tuple(s["names"]) if s["k"] == "poly" else ("q0",) for s in specs}
+    ordered = fn == "align_indeterminants" or len(tuples) > 1
     if aligns_names and options:
         # under non-default retain options unused input names may legitimately be dropped:
         # the outputs must still share one name tuple, in index order, covering what is used
@@ -150,8 +157,8 @@ def run_case(case, ctx):
         for m in mods:
             needed |= M.all_names(m)
         for n, o in enumerate(out):
-            if tuple(o.names) != shared or list(shared) != sorted(shared, key=M.numsuffix) or \
-                    not needed <= set(shared):
+            if tuple(o.names) != shared or not needed <= set(shared) or \
+                    (ordered and list(shared) != sorted(shared, key=M.numsuffix)):
                 facts["failure"] = "names"
                 ctx.violation(facts, f"{fn} under {options}: output {n} names {o.names}; output 0 "
                                      f"names {shared}; names in use {sorted(needed)}", case)
@@ -159,7 +166,8 @@ def run_case(case, ctx):
     elif aligns_names:
         want_names = expected_names(specs)
         for n, o in enumerate(out):
-            if tuple(o.names) != want_names:
+            if tuple(o.names) != want_names and (ordered or tuple(o.names) != tuple(out[0].names)
+                                                 or set(o.names) != set(want_names)):
                 facts["failure"] = "names"
                 ctx.violation(facts, f"{fn}: output {n} names {o.names} != union in index order "
                                      f"{want_names}", case)
